@@ -306,3 +306,19 @@ func Eventually(d time.Duration, cond func() bool) bool {
 		time.Sleep(2 * time.Millisecond)
 	}
 }
+
+// GoID returns the id of the calling goroutine (parsed from its stack header); used to attribute an effect to the
+// hook point the same goroutine passed just before.
+func GoID() int64 {
+	var buf [64]byte
+	n := runtime.Stack(buf[:], false)
+	// "goroutine 123 [running]:"
+	var id int64
+	for _, c := range buf[len("goroutine "):n] {
+		if c < '0' || c > '9' {
+			break
+		}
+		id = id*10 + int64(c-'0')
+	}
+	return id
+}
